@@ -283,7 +283,7 @@ fn jesc(s: &str) -> String { s.replace('\\', "\\\\").replace('"', "\\\"") }
 fn check_pos(prop: &str, focus: &str, p: &Pos, h: &ZobristHasher) -> Option<String> {
     match prop {
         "C01" => check_movegen(p, h, false, "set").or_else(|| if focus == "nochain" { None } else { check_movegen_chain(p, h, false, "set") }),
-        "C02" => check_movegen(p, h, false, "succ").or_else(|| if focus == "nochain" { None } else { check_movegen_chain(p, h, false, "succ") }),
+        "C02" => check_movegen(p, h, false, "succ").or_else(|| check_movegen(p, h, true, "succ")).or_else(|| if focus == "nochain" { None } else { check_movegen_chain(p, h, false, "succ") }),
         "C05" => check_movegen(p, h, false, "key").or_else(|| check_movegen(p, h, true, "key")).or_else(|| if focus == "nochain" { None } else { check_movegen_chain(p, h, false, "key") }).or_else(|| if focus == "nomm" { None } else { check_make_move(p, h).filter(|d| d.contains("key")) }),
         "C13" => check_movegen(p, h, true, "set").or_else(|| check_movegen(p, h, true, "succ")),
         "C06" => check_is_check(p, h),
